@@ -115,8 +115,9 @@ class Module:
                     mod = st.module or ''
                     if st.level:
                         base = self.name.split('.')
-                        # a module 'a.b.c' at level 1 -> package 'a.b'
-                        base = base[:len(base) - st.level]
+                        # a module 'a.b.c' at level 1 -> package 'a.b'; a package __init__ counts as one level
+                        drop = st.level - (1 if os.path.basename(self.path) == '__init__.py' else 0)
+                        base = base[:len(base) - drop]
                         mod = '.'.join(base + ([mod] if mod else []))
                     for a in st.names:
                         if a.name == '*':
@@ -344,7 +345,7 @@ class Index:
         if isinstance(expr, ast.Constant):
             return expr.value
         if isinstance(expr, ast.Name):
-            if env and expr.id in env:
+            if env is not None and expr.id in env:
                 return env[expr.id]
             if expr.id in ('True', 'False', 'None'):
                 return {'True': True, 'False': False, 'None': None}[expr.id]
@@ -580,9 +581,32 @@ class Index:
         if r is None:
             raise AnalysisError(f'anchor constant {modname}:{clsname}.{attr} not found')
         try:
+            if r[0] == 'assign':
+                return self.fold(r[1], r[2][-1], _ClassEnv(self, modname, cls), 1)
             return self._fold_lookup(r, ast.Name(id=attr), 0)
         except Unfoldable as e:
             raise AnalysisError(f'anchor constant {modname}:{clsname}.{attr} cannot be folded: {e}')
+
+
+class _ClassEnv(dict):
+    """Name environment of a class body: earlier class attributes are visible by bare name."""
+    def __init__(self, ix, modname, cls):
+        super().__init__()
+        self.ix, self.modname, self.cls = ix, modname, cls
+
+    def __contains__(self, name):
+        if dict.__contains__(self, name):
+            return True
+        r = self.ix.class_attr(self.modname, self.cls, name)
+        return bool(r and r[0] == 'assign')
+
+    def __getitem__(self, name):
+        if dict.__contains__(self, name):
+            return dict.__getitem__(self, name)
+        r = self.ix.class_attr(self.modname, self.cls, name)
+        v = self.ix.fold(r[1], r[2][-1], self, 2)
+        self[name] = v
+        return v
 
 
 class _UNFOLDED:
